@@ -61,10 +61,33 @@ func pl(b []byte) *grpc_testing.Payload {
 	return &grpc_testing.Payload{Body: b}
 }
 
+// Besides the payload the request messages carry a few more fields derived
+// from it (scalars, an enum-free nested message, a repeated message), so that
+// a dropped, defaulted or misplaced field shows up in the comparison on every
+// codec and through the proxy's dynamic messages.
+func echoStatus(p []byte) *grpc_testing.EchoStatus {
+	if len(p) == 0 {
+		return nil
+	}
+	return &grpc_testing.EchoStatus{Code: int32(p[0]) - 100, Message: "st-" + strconv.Itoa(len(p))}
+}
+
+func respParams(p []byte) []*grpc_testing.ResponseParameters {
+	var out []*grpc_testing.ResponseParameters
+	for i := 0; i < len(p) && i < 3; i++ {
+		out = append(out, &grpc_testing.ResponseParameters{Size: int32(p[i]) + 1, IntervalUs: int32(i)})
+	}
+	return out
+}
+
 var methods = map[string]*methodInfo{
 	"unary": {Key: "unary", Service: tsvc, Name: "UnaryCall",
-		mkReq:   func(p []byte, _ string) proto.Message { return &grpc_testing.SimpleRequest{Payload: pl(p)} },
-		mkResp:  func(p []byte) proto.Message { return &grpc_testing.SimpleResponse{Payload: pl(p)} },
+		mkReq: func(p []byte, _ string) proto.Message {
+			return &grpc_testing.SimpleRequest{Payload: pl(p), ResponseSize: int32(len(p)) * 3, FillUsername: len(p)%2 == 1, ResponseStatus: echoStatus(p)}
+		},
+		mkResp: func(p []byte) proto.Message {
+			return &grpc_testing.SimpleResponse{Payload: pl(p), Username: "u" + strconv.Itoa(len(p)), Hostname: textOf(p[:min(len(p), 6)])}
+		},
 		newReq:  func() proto.Message { return &grpc_testing.SimpleRequest{} },
 		newResp: func() proto.Message { return &grpc_testing.SimpleResponse{} }},
 	"client": {Key: "client", Service: tsvc, Name: "StreamingInputCall", ClientS: true,
@@ -75,12 +98,16 @@ var methods = map[string]*methodInfo{
 		newReq:  func() proto.Message { return &grpc_testing.StreamingInputCallRequest{} },
 		newResp: func() proto.Message { return &grpc_testing.StreamingInputCallResponse{} }},
 	"server": {Key: "server", Service: tsvc, Name: "StreamingOutputCall", ServerS: true,
-		mkReq:   func(p []byte, _ string) proto.Message { return &grpc_testing.StreamingOutputCallRequest{Payload: pl(p)} },
+		mkReq: func(p []byte, _ string) proto.Message {
+			return &grpc_testing.StreamingOutputCallRequest{Payload: pl(p), ResponseParameters: respParams(p), ResponseStatus: echoStatus(p)}
+		},
 		mkResp:  func(p []byte) proto.Message { return &grpc_testing.StreamingOutputCallResponse{Payload: pl(p)} },
 		newReq:  func() proto.Message { return &grpc_testing.StreamingOutputCallRequest{} },
 		newResp: func() proto.Message { return &grpc_testing.StreamingOutputCallResponse{} }},
 	"bidi": {Key: "bidi", Service: tsvc, Name: "FullDuplexCall", ClientS: true, ServerS: true,
-		mkReq:   func(p []byte, _ string) proto.Message { return &grpc_testing.StreamingOutputCallRequest{Payload: pl(p)} },
+		mkReq: func(p []byte, _ string) proto.Message {
+			return &grpc_testing.StreamingOutputCallRequest{Payload: pl(p), ResponseParameters: respParams(p), ResponseStatus: echoStatus(p)}
+		},
 		mkResp:  func(p []byte) proto.Message { return &grpc_testing.StreamingOutputCallResponse{Payload: pl(p)} },
 		newReq:  func() proto.Message { return &grpc_testing.StreamingOutputCallRequest{} },
 		newResp: func() proto.Message { return &grpc_testing.StreamingOutputCallResponse{} }},
